@@ -187,7 +187,8 @@ def oracle(run):
         delta = rng.choice([1, 1, 1, Fraction(1001, 1000), Fraction(999, 1000), 2, Fraction(1, 2)])
         # the factor itself is checked against physics above; here: equal iff the same amount under that factor
         w = v * Fraction(f) * delta if (same_kind and f is not None) else v
-        x, y = Quantity(v, a), Quantity(w, b)
+        ca, cb = rng.choice(case_variants(a)), rng.choice(case_variants(b))
+        x, y = Quantity(v, ca), Quantity(w, cb)
         want = same_kind and delta == 1
         got = x.has_equal_value_to(y)
         run.case(("equal", a, b, str(v), str(w)), True, kind="equal-amount")
